@@ -80,6 +80,15 @@ def cellY (g : HfQ) (i : Nat) : Rat × Rat :=
   let a := g.sy * g.hs.getD i 0; let b := g.sy * g.hs.getD (i + 1) 0
   (rmin a b, rmax a b)
 
+/-- times `t` at which the moving interval `[a + t v, b + t v]` overlaps `[c, d]` by at least the margin `m`:
+`none` = never, `some (lo, hi)` (either bound may be absent) -/
+def sweepAxis (a b c d v m : Rat) : Option (Option Rat × Option Rat) :=
+  if v == 0 then (if a ≤ d - m && c + m ≤ b then some (none, none) else none)
+  else if v > 0 then some (some ((c + m - b) / v), some ((d - m - a) / v))
+  else some (some ((d - m - a) / v), some ((c + m - b) / v))
+def omax (x : Option Rat) (y : Rat) : Rat := match x with | some a => rmax a y | none => y
+def omin (x : Option Rat) (y : Rat) : Rat := match x with | some a => rmin a y | none => y
+
 def hf2Handler (fn : String) : Option Handler :=
   match fn with
   | "hf2_cell" => some {
@@ -112,6 +121,37 @@ def hf2Handler (fn : String) : Option Handler :=
             match (List.range g.n).find? (fun i => clearX g i (q b.mins.x) (q b.maxs.x) && !(s ≤ (i : Int) && (i : Int) < e)) with
             | none => "pass"
             | some i => s!"fail overlapping-cell-outside-range {i}"
+          | _ => "fail unparsable-output" }
+  | "hf2_walk" => some {
+      model := fun a => run (do let h ← phf2; let b ← pbox2; let v ← pv2; let mt ← pf
+                                pure (" ".intercalate ("ids" :: (h.walk b v mt).map toString))) a
+      oracle := fun a o => match run (do let h ← phf2; let b ← pbox2; let v ← pv2; let mt ← pf; pure (h, b, v, mt)) a with
+        | none => "skip bad-args"
+        | some (h, b, v, mt) =>
+          if !(hfDomain h && valid2 (qb2 b) && FloatIO.isFinite b.mins.x && FloatIO.isFinite b.mins.y && FloatIO.isFinite b.maxs.x &&
+               FloatIO.isFinite b.maxs.y && FloatIO.isFinite v.x && FloatIO.isFinite v.y && FloatIO.isFinite mt && mt ≥ 0) then "skip outside-domain" else
+          let g := hfq h; let bb := qb2 b; let vv := q2 v; let T := q mt
+          let ty : Rat := (1 + rabs g.sy) / 1000000000
+          match o with
+          | ["unsupported"] => "skip unsupported-pair"
+          | "ids" :: ts => match ts.mapM String.toNat? with
+            | none => "fail unparsable-output"
+            | some ids =>
+              -- a present cell whose box the moving box of the shape clearly overlaps at some time in [0, max_toi) must be tested
+              let reach (i : Nat) : Bool :=
+                match sweepAxis bb.mins.x bb.maxs.x (vx g.sx g.n i) (vx g.sx g.n (i + 1)) vv.x g.tol,
+                      sweepAxis bb.mins.y bb.maxs.y (cellY g i).1 (cellY g i).2 vv.y ty with
+                | some (l1, h1), some (l2, h2) =>
+                  let lo := omax l1 (omax l2 0)
+                  let hi := omin h1 (omin h2 (T - (1 + T) / 1000000000))
+                  lo ≤ hi
+                | _, _ => false
+              let missed := (List.range g.n).find? fun i => g.st.getD i false && reach i && !ids.contains i
+              let wrong := ids.find? fun i => !(i < g.n && g.st.getD i false)
+              match missed, wrong with
+              | some i, _ => s!"fail reachable-cell-not-tested {i}"
+              | _, some i => s!"fail tested-cell-absent {i}"
+              | none, none => "pass"
           | _ => "fail unparsable-output" }
   | "hf2_elems" => some {
       model := fun a => run (do let h ← phf2; let b ← pbox2; pend
